@@ -285,10 +285,18 @@ def main(tier: str) -> int:
     u = init_symbolic_regression_uniset(X, tuple(n for n in ("add", "mul", "div", "cos", "sub") if n in accepted))
     from thefittest.utils.random import numba_seed
     numba_seed(chk.seed + 5)
+    X_before = X.copy()
     for _ in range(60 if tier == "quick" else 600):
         t = Tree.random_tree(u, rng.randint(1, 4))
         with np.errstate(all="ignore"):
             whole = np.asarray(t() * np.ones(len(X)), dtype=np.float64)
+            again = np.asarray(t() * np.ones(len(X)), dtype=np.float64)
+        # evaluation has no side effects: the data bound to the terminals is untouched, a second call gives the same values
+        if not np.array_equal(X, X_before) or not np.array_equal(whole, again, equal_nan=True):
+            chk.fail("evaluating a tree changed the data bound to its terminals (or a second evaluation differs from the first)",
+                     {"tree": str(t), "data_changed": not np.array_equal(X, X_before), "first": whole.tolist()[:5], "second": again.tolist()[:5]}, {"fn": "tree_batch", "clause": "pure"})
+            X[...] = X_before
+        with np.errstate(all="ignore"):
             rows = []
             for r in range(len(X)):
                 tr = t.set_terminals(**{f"x{i}": X[r, i] for i in range(X.shape[1])})
